@@ -325,7 +325,7 @@ func c10Eval(w *enga.World, c *c10Case) (admitted bool, foreignEffect string) {
 }
 
 func runC10(r *mc.Run) {
-	r.Rule = "every sdk.Msg implementation registered in the application's interface registry (discovered at run time) x signer class (relayer proposer, other relayer member, consensus proposer, other validator, account-less key) x memo x timeout height {0,h-2,h-1,h,h+1} x signature {valid, wrong key, wrong sequence} x mode {CheckTx, prepare via mempool, ProcessProposal, FinalizeBlock}, before and after a relayer election; compositions (allowed+allowed, allowed+foreign, block-message+allowed, allowed+block-message, two message signers that both sign, a separate fee payer that co-signs - also for the block message alone and for two block messages of two accounts); ReCheck after an election; oracle = admission predicate from the statement; foreign messages must leave every store equal to the same block without them"
+	r.Rule = "every sdk.Msg implementation registered in the application's interface registry (discovered at run time) x signer class (relayer proposer, other relayer member, consensus proposer, other validator, account-less key) x memo x timeout height {0,h-2,h-1,h,h+1} x signature {valid, wrong key, wrong sequence} x mode {CheckTx, prepare via mempool, ProcessProposal, FinalizeBlock}, before and after a relayer election; compositions (allowed+allowed, allowed+foreign, block-message+allowed, allowed+block-message, two message signers that both sign, a separate fee payer that co-signs - also for the block message alone and for two block messages of two accounts); ReCheck after an election and after the timeout height has passed (control: one block earlier it is still admitted); oracle = admission predicate from the statement; foreign messages must leave every store equal to the same block without them"
 	r.Assumptions = []string{"CheckTx is exercised on an application that has committed a block (a freshly restarted App checks at height 0 until its first commit: SDK behaviour)", "ReCheck only concerns transactions previously admitted by CheckTx"}
 	base, err := enga.NewWorld(c08Cfg())
 	if err != nil {
@@ -482,6 +482,40 @@ func shortMsgs(us []string) string {
 // c10Recheck: a transaction admitted by CheckTx is re-checked after a block; it stays
 // admitted while its signer is the relayer proposer and is evicted after an election.
 func c10Recheck(r *mc.Run) {
+	// a transaction admitted while its timeout height was still ahead is re-checked after the
+	// chain has passed that height (and, as a control, one whose timeout is still ahead)
+	for _, late := range []bool{true, false} {
+		w, err := enga.NewWorld(c08Cfg())
+		must(err)
+		c := &c10Case{Msgs: []string{"/goat.bitcoin.v1.MsgApproveCancellation"}, Signer: "relayer-proposer", Timeout: "h", Sig: "valid", Mode: "check"}
+		tx, _ := c10Build(w, c) // timeout = the height of the next block
+		res, err := w.N.CheckTx(tx)
+		if err != nil || res.Code != 0 {
+			r.Violate(mc.Violation{Class: "admissible-transaction-refused:check", Msg: fmt.Sprintf("%v %v", err, res), Detail: c}, nil)
+			w.Close()
+			continue
+		}
+		blocks := 1 // committed height == timeout height: still admissible
+		if late {
+			blocks = 2 // committed height == timeout height + 1: expired
+		}
+		for i := 0; i < blocks; i++ {
+			eth, _, err := w.N.BuildEthBlockTx(sim.EthBlockOpts{})
+			must(err)
+			if rr := w.N.RunBlock(&sim.Block{TimeDelta: time.Second, Txs: [][]byte{eth}}); rr.Err != nil {
+				panic(rr.Err)
+			}
+		}
+		rc, err := w.N.App.CheckTx(&abci.RequestCheckTx{Tx: tx, Type: abci.CheckTxType_Recheck})
+		r.Transitions.Add(1)
+		r.Validated.Add(1)
+		ok := err == nil && rc.Code == 0
+		if ok == late {
+			r.Violate(mc.Violation{Class: fmt.Sprintf("recheck-verdict:timeout-passed=%v", late), Msg: fmt.Sprintf("ReCheck admitted=%v although the timeout height has passed=%v (%s)", ok, late, rc.GetLog()), Detail: c10Case{Mode: "recheck", Timeout: "h"}}, nil)
+		}
+		r.Outcome(fmt.Sprintf("recheck-after-timeout-passed=%v-admitted=%v", late, ok))
+		w.Close()
+	}
 	for _, elect := range []bool{false, true} {
 		w, err := enga.NewWorld(c08Cfg())
 		must(err)
